@@ -75,6 +75,13 @@ def filter : List α → List Bool → List α
 def take (rows : List α) (idxs : List Int) : List α :=
   pick (fun i => decide (Gen.Frame.takeTest (i : Int) idxs)) rows
 
+/-- `take` given its index collection as an object of class `kind` whose members are `members` (in whatever order
+the object lists them, repeats included): the scan `(m for i, m in enumerate(rows) if i in indexes)` asks the object
+only `i in indexes`.  A class for which the method has a return path of its own (`Gen.Frame.ownPathKinds "take"`,
+regenerated from the source) is outside what this model describes: `none`. -/
+def takeAny (kind : String) (rows : List α) (members : List Int) : Option (List α) :=
+  if (Gen.Frame.ownPathKinds "take").any (fun k => k == kind) then none else some (take rows members)
+
 def query (rows : List α) (p : α → Bool) : List α := rows.filter p
 
 /-- Index of the first occurrence of `a` in `names`. -/
